@@ -121,3 +121,69 @@ func TestVerifC16MetricsRace(t *testing.T) {
 	}
 	SetReportWriter(nil)
 }
+
+// Drops handed to a Metrics that never saw an ordinary task must still be flushed by the periodic
+// tick (no explicit Flush / Wait): the tick is one of the statement's triggers.
+func TestVerifC16MetricsTickOnly(t *testing.T) {
+	m := vk.New(t, "C16", "stat.Metrics with a 20 ms report interval that only ever receives AddDrop (1-5 of them) or only Add, and no explicit Flush: the periodic tick alone must report them; verdict: nothing reported after 1000 intervals (20 s) although an explicit Flush afterwards finds them pending")
+	defer m.Done()
+	DisableLog()
+	// set once, before any Metrics of this process exists, and never restored (flusher goroutines read it):
+	// this test runs in a test process of its own (see registry/C16.py)
+	logInterval = 20 * time.Millisecond
+	n := vk.N(6, 60)
+	for idx := 1; idx <= n; idx++ {
+		if !m.Only(idx) {
+			continue
+		}
+		drops := 1 + idx%5
+		onlyDrops := idx%3 != 0
+		desc := fmt.Sprintf("case=%d;only_drops=%v count=%d", idx, onlyDrops, drops)
+		w := &c16Writer{}
+		SetReportWriter(w)
+		mt := NewMetrics(fmt.Sprintf("c16-tick-%d", idx))
+		for i := 0; i < drops; i++ {
+			if onlyDrops {
+				mt.AddDrop()
+			} else {
+				mt.Add(Task{Duration: time.Millisecond})
+			}
+		}
+		seen := func() int {
+			w.mu.Lock()
+			defer w.mu.Unlock()
+			if onlyDrops {
+				return w.drops
+			}
+			return int(w.reqs*float64(time.Second)/float64(logInterval)*float64(logInterval/time.Second) + 0.5)
+		}
+		reported := func() bool {
+			w.mu.Lock()
+			defer w.mu.Unlock()
+			return w.reports > 0
+		}
+		_ = seen
+		if !vk.WaitUntil(20*time.Second, reported) {
+			// were they pending all the time? an explicit flush tells
+			mt.executor.Flush()
+			mt.executor.Wait()
+			if reported() {
+				m.Violate("C16:metrics:never-flushed-by-tick", desc, "%d tasks were handed over; no report after 1000 report intervals without an explicit Flush, but an explicit Flush then reported them (they were pending all the time)", drops)
+				return // every further case would wait out the same 20 s
+			} else {
+				m.Inconclusive("case %d: nothing reported even after an explicit Flush", idx)
+			}
+			continue
+		}
+		mt.executor.Flush()
+		mt.executor.Wait()
+		w.mu.Lock()
+		gotDrops := w.drops
+		w.mu.Unlock()
+		if onlyDrops && gotDrops != drops {
+			m.Violate("C16:metrics:drops-not-conserved", desc, "reports account for %d drops, %d were added", gotDrops, drops)
+		}
+		m.Case(vk.Digest(desc), true)
+		m.Count("tick_only_metrics", 1)
+	}
+}
